@@ -111,14 +111,33 @@ func c17Later(r *ev.Run) {
 				r.Violation("C17:full-scan-error", fmt.Sprintf("%s: %v", sc.name, err), map[string]interface{}{"family": "behind-the-stop-point", "page_size": ps})
 				continue
 			}
-			chains := c17TableChains(img.Bytes, ps) // rowid -> overflow pages of that row (independent walk of the image)
+			// by structure (an independent walk of the image): the pages needed to deliver entry i of a full scan
+			var needed [][]int
+			switch sc.name {
+			case "SelectDone(t1)", "Table.Scan(t1)":
+				needed = c17WalkNeeded(img.Bytes, ps, img.Roots["t1"], false)
+			case "SelectDone(t2)":
+				needed = c17WalkNeeded(img.Bytes, ps, img.Roots["t2"], true)
+			case "Index.Scan(t1_bc)":
+				needed = c17WalkNeeded(img.Bytes, ps, img.Roots["t1_bc"], true)
+			}
+			if needed != nil && len(needed) != len(full) {
+				r.Harness("C17 walk of %s finds %d entries, the scan %d", sc.name, len(needed), len(full))
+				needed = nil
+			}
 			for k := 1; k <= len(full); k++ {
 				bad := map[int]bool{}
-				if sc.name == "SelectDone(t1)" || sc.name == "Table.Scan(t1)" {
-					// by structure: the overflow chains of the rows behind the stop point
-					for _, row := range full[k:] {
-						if id, ok := row[0].(int64); ok {
-							for _, p := range chains[id] {
+				if needed != nil {
+					// everything of this b-tree that the first k entries do not need
+					need := map[int]bool{}
+					for _, ps := range needed[:k] {
+						for _, p := range ps {
+							need[p] = true
+						}
+					}
+					for _, ps := range needed[k:] {
+						for _, p := range ps {
+							if !need[p] {
 								bad[p] = true
 							}
 						}
@@ -195,5 +214,85 @@ func c17TableChains(img []byte, ps int) map[int64][]int {
 			}
 		}
 	}
+	return out
+}
+
+// c17WalkNeeded walks a b-tree of the image on its own, in scan order, and returns for every entry the
+// pages needed to deliver it: the pages on the path from the root and the entry's overflow chain
+func c17WalkNeeded(img []byte, ps, root int, index bool) [][]int {
+	var out [][]int
+	npages := len(img) / ps
+	be32 := func(b []byte) int { return int(b[0])<<24 | int(b[1])<<16 | int(b[2])<<8 | int(b[3]) }
+	localIdx := func(pl int) int {
+		x := ((ps-12)*64)/255 - 23
+		if pl <= x {
+			return pl
+		}
+		m := ((ps-12)*32)/255 - 23
+		k := m + (pl-m)%(ps-4)
+		if k <= x {
+			return k
+		}
+		return m
+	}
+	entry := func(p []byte, off int, path []int, table bool) []int {
+		pages := append([]int{}, path...)
+		pl, n1 := brimVarint(p[off:])
+		at := off + n1
+		local := 0
+		if table {
+			_, n2 := brimVarint(p[at:])
+			at += n2
+			local = brimLocal(ps, int(pl))
+		} else {
+			local = localIdx(int(pl))
+		}
+		if local < int(pl) && at+local+4 <= ps {
+			next := be32(p[at+local:])
+			for steps := 0; next > 0 && next <= npages && steps < npages; steps++ {
+				pages = append(pages, next)
+				next = be32(img[(next-1)*ps:])
+			}
+		}
+		return pages
+	}
+	var rec func(pg int, path []int, depth int)
+	rec = func(pg int, path []int, depth int) {
+		if pg < 1 || pg > npages || depth > 20 {
+			return
+		}
+		p := img[(pg-1)*ps : pg*ps]
+		h := 0
+		if pg == 1 {
+			h = 100
+		}
+		path2 := append(append([]int{}, path...), pg)
+		n := int(p[h+3])<<8 | int(p[h+4])
+		ptr := func(i, base int) int { return int(p[base+2*i])<<8 | int(p[base+2*i+1]) }
+		switch p[h] {
+		case 0x0d:
+			for i := 0; i < n; i++ {
+				out = append(out, entry(p, ptr(i, h+8), path2, true))
+			}
+		case 0x0a:
+			for i := 0; i < n; i++ {
+				out = append(out, entry(p, ptr(i, h+8), path2, false))
+			}
+		case 0x05:
+			for i := 0; i < n; i++ {
+				rec(be32(p[ptr(i, h+12):]), path2, depth+1)
+			}
+			rec(be32(p[h+8:]), path2, depth+1)
+		case 0x02:
+			for i := 0; i < n; i++ {
+				off := ptr(i, h+12)
+				rec(be32(p[off:]), path2, depth+1)
+				out = append(out, entry(p, off+4, path2, false))
+			}
+			rec(be32(p[h+8:]), path2, depth+1)
+		}
+	}
+	_ = index
+	rec(root, nil, 0)
 	return out
 }
